@@ -43,10 +43,8 @@ def configs(name, rng, d, n_classes, thorough):
             for nc in ncs:
                 k = d if nc is None else nc
                 p = {'init': init, 'n_components': nc}
-                if init == 'lda' and k > min(d, n_classes - 1):
-                    # more rows asked for than LDA has discriminative directions: the documentation (zero rows) and the code
-                    # (ValueError from the shape check) disagree; what must never happen is a transformation of another shape
-                    p['_may_reject'] = True
+                # (init='lda' with more rows asked for than LDA has discriminative directions: the documentation promises zero
+                #  rows for the rest; the tree as given raised ValueError from scikit-learn's LDA — defect D41, repaired)
                 if init == 'array':
                     p['init'] = rng.randn(k, d) if rng.rand() < 0.7 else rng.randint(-3, 4, size=(k, d)) + np.eye(k, d, dtype=int) * 5
                 out.append(p)
@@ -225,6 +223,42 @@ def run(R, tier, seed, driver_ok):
                     except Exception as e:
                         if not (name.startswith('SDML') and isinstance(e, RuntimeError)):
                             R.violation(f'{name}[refit]/fit-raises/{type(e).__name__}', f'{name} refit raised {type(e).__name__}: {str(e)[:200]}', case)
+    # ---- one feature: every learner (but SDML, which documents that it needs two) returns a finite (k, 1) transformation
+    for name in zoo.ALL:
+        if name.startswith('SDML'):
+            continue
+        for rep in range(1 if not thorough else 4):
+            case = {'est': name, 'params': 'defaults', 'note': 'single-feature data'}
+            R.case(('c03-one-feature', name, rep, seed), True, branch='one-feature')
+            try:
+                with warnings.catch_warnings(record=True) as wl:
+                    warnings.simplefilter('always')
+                    est, X1, y1, args1 = zoo.fitted(name, rng, d=1)
+                case.update({'X': X1, 'y': y1})
+                lowrank_ok = name.startswith('SCML')
+                warned = lowrank_ok          # (zoo.fitted silences warnings: the announcement of a low rank is judged in the main stream)
+                check_model(R, name + '[d=1]', est, est, X1, 1, None if lowrank_ok else 1, lowrank_ok, warned, case)
+            except Exception as e:
+                R.violation(f'{name}/fit-raises/{type(e).__name__}/one-feature', f'{name} on single-feature data raised {type(e).__name__}: {str(e)[:160]}', case)
+    # ---- comparisons that involve a pair of identical points (legal quadruplets: d(a,b) <= d(c,c) or d(a,a) <= d(c,d))
+    from metric_learn import LSML
+    for rep in range(2 if not thorough else 8):
+        dd = int(rng.randint(2, 5)); Xq = rng.randn(20, dd)
+        q = rng.randint(0, 20, size=(12, 4)); q = q[(q[:, 0] != q[:, 1]) & (q[:, 2] != q[:, 3])]
+        j = int(rng.randint(20))
+        for kind, extra in (('c==d', [q[0, 0], q[0, 1], j, j]), ('a==b', [j, j, q[0, 2], q[0, 3]])):
+            qq = np.vstack([q, [extra]])
+            case = {'est': 'LSML', 'params': {'max_iter': 50}, 'X': Xq, 'quadruplets': qq, 'note': f'a quadruplet with {kind}'}
+            R.case(('c03-degenerate-quadruplet', kind, Xq.tobytes().hex()[:40]), True, branch='degenerate-quadruplet')
+            for wts in (None, rng.rand(len(qq)) + 0.1):
+                try:
+                    with warnings.catch_warnings():
+                        warnings.simplefilter('ignore')
+                        est = LSML(max_iter=50)
+                        ret = est.fit(Xq[qq], weights=wts)
+                    check_model(R, f'LSML[{kind}]', est, ret, Xq, dd, dd, False, False, case)
+                except Exception as e:
+                    R.violation(f'LSML/fit-raises/{type(e).__name__}/degenerate-quadruplet', f'LSML on quadruplets containing one with {kind} raised {type(e).__name__}: {str(e)[:120]}', case)
     # ---- class means on a line (a rank-deficient between-class scatter): 'lda' / 'auto' still give the requested shape
     from metric_learn import NCA, LMNN
     for rep in range(2 if not thorough else 8):
